@@ -169,6 +169,43 @@ def palette_programs(h: Harness):
                     break
 
 
+def kinds_programs(h: Harness):
+    """programs that hold CLASSES of the grammar as plain values (IsA(what, kind=<one of the productions>)): a class object in a
+    field is a leaf like an int; every production instance of every program -- also of the programs created AFTER such a value was
+    first used -- carries the size / depth / weighted size of its structure"""
+    import ctxgrammar
+    from geneticengine.random.sources import NativeRandomSource
+    from geneticengine.representations.tree.initializations import FullDecider, MaxDepthDecider
+    for seed in range(h.n(8, 50)):
+        g, classes = ctxgrammar.kinds_grammar(abc_based=seed % 3 == 0)   # (for ABC-derived classes type(cls) is ABCMeta, not `type`)
+        r = NativeRandomSource(seed)
+        rep = TreeBasedRepresentation(g, (FullDecider if seed % 2 else MaxDepthDecider)(r, g, 4))
+        progs = []
+        try:
+            for _ in range(6):
+                progs.append(rep.create_genotype(r))
+            progs.append(rep.mutate(r, progs[0]))
+            progs += list(rep.crossover(r, progs[1], progs[2]))
+        except Exception as e:  # noqa: BLE001
+            h.fail("create_genotype[kinds-grammar]", "raises", f"creating programs that hold classes as values raised {type(e).__name__}: {e}"[:300], [seed])
+            continue
+        for p in progs:
+            out = []
+            ctxgrammar.kinds_measure(p, classes, out)
+            h.count("kinds-programs")
+            h.seen(f"kinds:{seed}:{repr(p)[:60]}", nontrivial="QIsA" in repr(p))
+            bad = None
+            for node, want in out:
+                have = tuple(getattr(node, a, None) for a in ("gengy_nodes", "gengy_distance_to_term", "gengy_weighted_nodes"))
+                if have != want:
+                    bad = (node, have, want)
+                    break
+            if bad:
+                h.fail("create_genotype[kinds-grammar]", "labels-differ-from-structure",
+                       f"{repr(bad[0])[:120]} carries (nodes, depth, weighted)={bad[1]}, its structure has {bad[2]} (in {repr(p)[:120]})", [seed])
+                break
+
+
 def corpus():
     """fixed witnesses: a layered abstract hierarchy (Expr > Atom > Const > Lit) whose upper class types fields, plain and
     size-refined lists, tuples and unions of it -- in both depth modes"""
@@ -226,12 +263,33 @@ def exercise(h: Harness, spec, rng, b=None):
             # the parents (both served as donors of crossover material) must still be correctly labelled afterwards
             check_labels(h, "parent-after-variation", spec, b, v)
             check_labels(h, "parent-after-variation", spec, b, m)
+            # a decider that was built from ANOTHER grammar object over the same classes (the other depth-counting mode, or the
+            # usable sub-grammar, which is always in node mode): the programs of a representation carry the labels of the
+            # representation's grammar
+            if rng.random() < 0.35:
+                from geneticengine.grammar.grammar import extract_grammar
+                src3 = ScriptedSource([rng.randrange(0, 1000) for _ in range(256)])
+                try:
+                    with warnings.catch_warnings():
+                        warnings.simplefilter("ignore")
+                        g_other = extract_grammar(b.considered(), b.start, not spec.expansion) if rng.random() < 0.7 else g.usable_grammar()
+                        rep2 = TreeBasedRepresentation(g, synth.make_decider(rng.choice(["grow", "pigrow"]), depth + 3, src3, g_other))
+                        made = [rep2.create_genotype(src3)]
+                        made.append(rep2.mutate(src3, v))
+                        made += list(rep2.crossover(src3, v, made[0]))
+                except Exception as e:  # noqa: BLE001
+                    h.count("foreign-decider-error:" + type(e).__name__)
+                    continue
+                h.count("foreign-decider")
+                for x in made:
+                    check_labels(h, "TreeBasedRepresentation[decider of another grammar object]", spec, b, x)
 
 
 def run(h: Harness):
     rng = h.rng
     context_programs(h)
     palette_programs(h)
+    kinds_programs(h)
     for spec in corpus():
         for _ in range(h.n(4, 20)):
             exercise(h, spec, rng)
